@@ -4,6 +4,7 @@ import (
 	"bufio"
 	"fmt"
 	"io"
+	"math"
 	"os/exec"
 	"strconv"
 	"strings"
@@ -112,12 +113,18 @@ func sortStr(w int) string {
 	if w == 0 {
 		return "Bool"
 	}
+	if w == RealW {
+		return "Real"
+	}
 	return "(_ BitVec " + strconv.Itoa(w) + ")"
 }
 
 func smtName(n string) string { return "|" + n + "|" }
 
 func constStr(t *Term) string {
+	if t.W == RealW {
+		return realConstStr(t.Name)
+	}
 	if t.W == 0 {
 		if t.Val == 1 {
 			return "true"
@@ -404,7 +411,15 @@ func parseValues(txt string) ([]uint64, error) {
 		p += 2 // skip "(" and name
 		// value: token or (_ bvN w)
 		var v uint64
-		if toks[p] == "(" {
+		if toks[p] == "(" && toks[p+1] != "_" {
+			// real value: (- x), (/ a b)
+			f, np, err := parseReal(toks, p)
+			if err != nil {
+				return nil, err
+			}
+			v = math.Float64bits(f)
+			p = np
+		} else if toks[p] == "(" {
 			// (_ bvN w)
 			if toks[p+1] != "_" || !strings.HasPrefix(toks[p+2], "bv") {
 				return nil, fmt.Errorf("parse: unexpected value form")
@@ -434,6 +449,12 @@ func parseValues(txt string) ([]uint64, error) {
 					return nil, err
 				}
 				v = x
+			case strings.ContainsRune(tk, '.'):
+				f, err := strconv.ParseFloat(tk, 64)
+				if err != nil {
+					return nil, err
+				}
+				v = math.Float64bits(f)
 			default:
 				return nil, fmt.Errorf("parse: unexpected value %q", tk)
 			}
@@ -446,6 +467,36 @@ func parseValues(txt string) ([]uint64, error) {
 		vals = append(vals, v)
 	}
 	return vals, nil
+}
+
+// parseReal reads a real-valued model term: decimal, (- x), (/ a b); the value is returned as float64
+// (a model value is only used to replay a counterexample).
+func parseReal(toks []string, p int) (float64, int, error) {
+	if toks[p] != "(" {
+		f, err := strconv.ParseFloat(toks[p], 64)
+		return f, p + 1, err
+	}
+	op := toks[p+1]
+	p += 2
+	var args []float64
+	for toks[p] != ")" {
+		f, np, err := parseReal(toks, p)
+		if err != nil {
+			return 0, 0, err
+		}
+		args = append(args, f)
+		p = np
+	}
+	p++
+	switch {
+	case op == "-" && len(args) == 1:
+		return -args[0], p, nil
+	case op == "-" && len(args) == 2:
+		return args[0] - args[1], p, nil
+	case op == "/" && len(args) == 2:
+		return args[0] / args[1], p, nil
+	}
+	return 0, 0, fmt.Errorf("parse: unexpected real value (%s ...)", op)
 }
 
 // Script renders a self-contained SMT-LIB2 script asserting the terms (for
